@@ -1,1 +1,216 @@
-// harnesses: messages
+// harnesses over /repo/src/messages.rs  (C16 NodeInfo codec)
+use crate::vh_common::okf;
+
+fn v4(b: &[u8; 18]) -> SocketAddr {
+    SocketAddr::V4(SocketAddrV4::new(Ipv4Addr::new(b[0], b[1], b[2], b[3]), u16::from_be_bytes([b[4], b[5]])))
+}
+fn v6(b: &[u8; 18]) -> SocketAddr {
+    let mut ip = [0u8; 16];
+    ip.copy_from_slice(&b[..16]);
+    SocketAddr::V6(SocketAddrV6::new(Ipv6Addr::from(ip), u16::from_be_bytes([b[16], b[17]]), 0, 0))
+}
+
+/// builds an address list with n4 IPv4 and n6 IPv6 addresses, interleaved (v4 first where both remain), and the
+/// normalised form the wire format can carry: at most seven per family, IPv6 before IPv4, relative order kept
+fn addr_lists(raw: &[[u8; 18]; 18], n4: usize, n6: usize) -> (AddrList, AddrList) {
+    let mut given: AddrList = SmallVec::new();
+    let mut norm: AddrList = SmallVec::new();
+    let mut i = 0;
+    while i < 9 {
+        if i < n4 {
+            given.push(v4(&raw[i]));
+        }
+        if i < n6 {
+            given.push(v6(&raw[9 + i]));
+        }
+        i += 1;
+    }
+    let mut i = 0;
+    while i < 7 {
+        if i < n6 {
+            norm.push(v6(&raw[9 + i]));
+        }
+        i += 1;
+    }
+    let mut i = 0;
+    while i < 7 {
+        if i < n4 {
+            norm.push(v4(&raw[i]));
+        }
+        i += 1;
+    }
+    (given, norm)
+}
+
+fn same_addrs(a: &AddrList, b: &AddrList) -> bool {
+    if a.len() != b.len() {
+        return false;
+    }
+    let mut i = 0;
+    while i < 14 {
+        if i < a.len() && a[i] != b[i] {
+            return false;
+        }
+        i += 1;
+    }
+    true
+}
+
+fn okio<T>(r: Result<T, io::Error>) -> Option<T> {
+    match r {
+        Ok(v) => Some(v),
+        Err(e) => {
+            std::mem::forget(e);
+            None
+        }
+    }
+}
+
+fn empty_info() -> NodeInfo {
+    NodeInfo { node_id: [0; 16], peers: SmallVec::new(), claims: SmallVec::new(), peer_timeout: None, addrs: SmallVec::new() }
+}
+
+/// C16-H3a: the peers part. encode_peer_list_part -> decode_peer_list_part yields the normalised entry (at most seven
+/// addresses per family, IPv6 first, node-id bit) and leaves the framing intact for the entry that follows.
+fn peer_list_part_roundtrip(n4: usize, n6: usize) {
+    let raw: [[u8; 18]; 18] = kani::any();
+    let peer_id: NodeId = kani::any();
+    let has_id: bool = kani::any();
+    let sentinel: [u8; 18] = kani::any();
+    let (paddrs, pnorm) = addr_lists(&raw, n4, n6);
+    let mut info = empty_info();
+    info.peers.push(PeerInfo { node_id: if has_id { Some(peer_id) } else { None }, addrs: paddrs });
+    let mut s: AddrList = SmallVec::new();
+    s.push(v4(&sentinel));
+    info.peers.push(PeerInfo { node_id: None, addrs: s });
+    let mut wire = [0u8; 400];
+    let len = {
+        let mut c = Cursor::new(&mut wire[..]);
+        assert!(okio(info.encode_peer_list_part(&mut c)).is_some());
+        c.position() as usize
+    };
+    let k4 = if n4 < 7 { n4 } else { 7 };
+    let k6 = if n6 < 7 { n6 } else { 7 };
+    // wire size: flags + optional id + addresses, then the sentinel (flags + one IPv4 address)
+    assert!(len == 1 + (if has_id { 16 } else { 0 }) + 6 * k4 + 18 * k6 + 7);
+    let mut rd = Cursor::new(&wire[..len]).take(len as u64);
+    let back = okio(NodeInfo::decode_peer_list_part(&mut rd));
+    assert!(back.is_some());
+    let back = back.unwrap();
+    assert!(back.len() == 2);
+    assert!(back[0].node_id == info.peers[0].node_id);
+    assert!(same_addrs(&back[0].addrs, &pnorm));
+    assert!(back[1].node_id.is_none() && back[1].addrs.len() == 1 && back[1].addrs[0] == v4(&sentinel));
+    std::mem::forget(back);
+    std::mem::forget(info);
+    witness!();
+}
+macro_rules! pl_inst {
+    ($($name:ident = ($a:expr, $b:expr)),*) => {$(
+        #[cfg_attr(kani, kani::proof, kani::unwind(20))]
+        pub fn $name() {
+            peer_list_part_roundtrip($a, $b)
+        }
+    )*};
+}
+pl_inst!(
+    c16_peerlist_rt_00 = (0, 0), c16_peerlist_rt_10 = (1, 0), c16_peerlist_rt_01 = (0, 1), c16_peerlist_rt_21 = (2, 1),
+    c16_peerlist_rt_70 = (7, 0), c16_peerlist_rt_07 = (0, 7), c16_peerlist_rt_80 = (8, 0), c16_peerlist_rt_08 = (0, 8),
+    c16_peerlist_rt_77 = (7, 7), c16_peerlist_rt_99 = (9, 9), c16_peerlist_rt_38 = (3, 8), c16_peerlist_rt_93 = (9, 3)
+);
+
+/// C16-H3b: the own-addresses part: encode_addrs_part -> read_addr_list
+fn addrs_part_roundtrip(n4: usize, n6: usize) {
+    let raw: [[u8; 18]; 18] = kani::any();
+    let (addrs, norm) = addr_lists(&raw, n4, n6);
+    let mut info = empty_info();
+    info.addrs = addrs;
+    let mut wire = [0u8; 200];
+    let len = {
+        let mut c = Cursor::new(&mut wire[..]);
+        assert!(okio(info.encode_addrs_part(&mut c)).is_some());
+        c.position() as usize
+    };
+    let mut rd = Cursor::new(&wire[..len]).take(len as u64);
+    let back = okio(NodeInfo::read_addr_list(&mut rd));
+    assert!(back.is_some());
+    let back = back.unwrap();
+    assert!(same_addrs(&back, &norm));
+    assert!(rd.limit() == 0);
+    std::mem::forget(back);
+    std::mem::forget(info);
+    witness!();
+}
+macro_rules! ap_inst {
+    ($($name:ident = ($a:expr, $b:expr)),*) => {$(
+        #[cfg_attr(kani, kani::proof, kani::unwind(20))]
+        pub fn $name() {
+            addrs_part_roundtrip($a, $b)
+        }
+    )*};
+}
+ap_inst!(c16_addrs_rt_00 = (0, 0), c16_addrs_rt_11 = (1, 1), c16_addrs_rt_70 = (7, 0), c16_addrs_rt_80 = (8, 0),
+         c16_addrs_rt_08 = (0, 8), c16_addrs_rt_99 = (9, 9));
+
+
+/// C16-H3c: wire image of one peer-list entry with n4 IPv4 / n6 IPv6 addresses (concrete addresses, symbolic node-id
+/// presence): flags byte = (min(n6,7) << 3) | min(n4,7) | id bit, then id, then at most seven IPv6 and seven IPv4
+/// addresses in that order - the only form the decoder's 3-bit counters can represent
+fn peer_entry_wire(n4: usize, n6: usize) {
+    let has_id: bool = kani::any();
+    let mut info = empty_info();
+    let mut addrs: AddrList = SmallVec::new();
+    let mut i = 0;
+    while i < 9 {
+        if i < n4 {
+            addrs.push(SocketAddr::V4(SocketAddrV4::new(Ipv4Addr::new(10, 0, i as u8, 1), 1000 + i as u16)));
+        }
+        if i < n6 {
+            addrs.push(SocketAddr::V6(SocketAddrV6::new(Ipv6Addr::new(0xfd00, 0, 0, 0, 0, 0, i as u16, 1), 2000 + i as u16, 0, 0)));
+        }
+        i += 1;
+    }
+    info.peers.push(PeerInfo { node_id: if has_id { Some([0xab; 16]) } else { None }, addrs });
+    let mut wire = [0u8; 400];
+    let len = {
+        let mut c = Cursor::new(&mut wire[..]);
+        assert!(okio(info.encode_peer_list_part(&mut c)).is_some());
+        c.position() as usize
+    };
+    let k4 = if n4 < 7 { n4 } else { 7 };
+    let k6 = if n6 < 7 { n6 } else { 7 };
+    let idl = if has_id { 16 } else { 0 };
+    assert!(len == 1 + idl + 18 * k6 + 6 * k4);
+    assert!(wire[0] == ((k6 as u8) << 3) | (k4 as u8) | if has_id { 0x80 } else { 0 });
+    if has_id {
+        assert!(wire[1] == 0xab && wire[16] == 0xab);
+    }
+    // IPv6 block first, in list order; then IPv4 block
+    let mut j = 0;
+    while j < 7 {
+        if j < k6 {
+            let o = 1 + idl + 18 * j;
+            assert!(wire[o] == 0xfd && wire[o + 13] == j as u8 && wire[o + 15] == 1);
+            assert!(u16::from_be_bytes([wire[o + 16], wire[o + 17]]) == 2000 + j as u16);
+        }
+        if j < k4 {
+            let o = 1 + idl + 18 * k6 + 6 * j;
+            assert!(wire[o] == 10 && wire[o + 2] == j as u8);
+            assert!(u16::from_be_bytes([wire[o + 4], wire[o + 5]]) == 1000 + j as u16);
+        }
+        j += 1;
+    }
+    std::mem::forget(info);
+    witness!();
+}
+macro_rules! pw_inst {
+    ($($name:ident = ($a:expr, $b:expr)),*) => {$(
+        #[cfg_attr(kani, kani::proof, kani::unwind(20))]
+        pub fn $name() {
+            peer_entry_wire($a, $b)
+        }
+    )*};
+}
+pw_inst!(c16_peer_entry_wire_00 = (0, 0), c16_peer_entry_wire_10 = (1, 0), c16_peer_entry_wire_01 = (0, 1), c16_peer_entry_wire_33 = (3, 3),
+         c16_peer_entry_wire_70 = (7, 0), c16_peer_entry_wire_07 = (0, 7), c16_peer_entry_wire_80 = (8, 0), c16_peer_entry_wire_08 = (0, 8),
+         c16_peer_entry_wire_77 = (7, 7), c16_peer_entry_wire_99 = (9, 9), c16_peer_entry_wire_92 = (9, 2), c16_peer_entry_wire_29 = (2, 9));
